@@ -337,9 +337,21 @@ func genSteps(t *rapid.T, key string, tree *Iface, n int) []BStep {
 			st.API, st.Flags = "send", varlink.Oneway
 			st.Reply = BReply{Kind: "reply", Out: g.fields(m.Out)}
 			st.Recvs = 0
-		case r == 9: // upgrade
+		case r == 9: // upgrade: answered with a typed reply, with a declared error, or not overridden at all
 			st.API = "upgrade"
 			st.Reply = BReply{Kind: "reply", Out: g.fields(m.Out)}
+			switch u := rapid.IntRange(0, 5).Draw(t, "upshape"); {
+			case u <= 1 && len(es) > 0:
+				e := rapid.SampledFrom(es).Draw(t, "uerr")
+				et := e.T
+				if et == nil {
+					et = emptyStruct()
+				}
+				st.Reply = BReply{Kind: "error", Error: e.Name, Out: g.fields(et)}
+			case u == 2:
+				st.Impl = "embed"
+				st.Reply = BReply{Kind: "none"}
+			}
 		case r == 10: // unknown method / undecodable parameters through a raw client
 			st.API = "raw"
 			if rapid.Bool().Draw(t, "unknown") || len(m.In.Fields) == 0 {
@@ -747,6 +759,9 @@ func TestC08Fixed(t *testing.T) {
 			mk("send", varlink.More, in, BReply{Kind: "reply", Out: out, Continues: 2, ContOut: [][]json.RawMessage{out2, out}}, 3, "override"),
 			mk("send", varlink.Oneway, in, BReply{Kind: "reply", Out: out}, 0, "override"),
 			mk("upgrade", 0, in2, BReply{Kind: "reply", Out: out2}, 0, "override"),
+			mk("upgrade", 0, in, BReply{Kind: "error", Error: "Failed", Out: []json.RawMessage{json.RawMessage(`"busy"`), json.RawMessage("null"), json.RawMessage("[7]")}}, 0, "override"),
+			mk("upgrade", 0, in, BReply{Kind: "none"}, 0, "embed"),
+			mk("send", 0, in2, BReply{Kind: "error", Error: "Plain"}, 1, "override"),
 			{Pkg: "k0", Iface: tree.Name, Method: "Empty", API: "call", In: []json.RawMessage{}, Impl: "override", Reply: BReply{Kind: "reply"}},
 			{Pkg: "k0", Iface: tree.Name, Method: "NoSuchMethodZz", API: "raw", Raw: []byte(`{"method":"org.example.fixed.NoSuchMethodZz"}`)},
 			{Pkg: "k0", Iface: tree.Name, Method: "All", API: "raw", Raw: []byte(`{"method":"org.example.fixed.All","parameters":"nope"}`)},
